@@ -35,12 +35,27 @@ type batchCfg struct {
 	// server.timeouts.handler in seconds (0 = not configured: the default of 30 s, which no request of a batch
 	// reaches). With 1, nobody releases the parked requests of the batch: the handler timeout ends them.
 	HandlerTimeout int `json:"handler_timeout_s,omitempty"`
+	// health_checks.active (probes_test.go): off, or Helios's own prober probing the raw backends
+	Active probeCfg `json:"active_checks"`
 }
 
 // kind "slow-backend" (only in batches with the handler timeout configured): the backend has read the
 // request and stays silent until the proxy gives up on it.
 
-var kinds = []string{"ok", "ok", "4xx", "5xx", "reset-mid-body", "short-body", "abort-upload", "abort-download", "limited-client", "hold", "hold", "upgrade"}
+// wireDresses are the lab.Dresses that leave an HTTP/1.1 exchange an ordinary one on the wire (no upgrade, no
+// Expect handshake): requests of kind "dress" wear them in turn. The books do not depend on a request's method
+// or headers: each of them reached the balancer, was sent to a backend and answered 200.
+var wireDresses = func() []lab.Dress {
+	var ds []lab.Dress
+	for _, d := range lab.Dresses {
+		if d.Proto == "" && d.Hdr["Upgrade"] == "" && d.Hdr["Expect"] == "" && d.Hdr["Connection"] == "" {
+			ds = append(ds, d)
+		}
+	}
+	return ds
+}()
+
+var kinds = []string{"dress", "dress", "ok", "ok", "4xx", "5xx", "reset-mid-body", "short-body", "abort-upload", "abort-download", "limited-client", "hold", "hold", "upgrade"}
 
 // A request of kind "hold" is parked in flight until the books have been read. The phase in which it
 // is parked is drawn (see genHold); the kind string carries it:
@@ -212,6 +227,15 @@ func issue(l *lab.SocketLab, kind string, client int, t *tally, mu *sync.Mutex, 
 	}
 	req := &lab.RawRequest{Method: "GET", Target: target, Framing: "none",
 		Header: []lab.KV{{K: "Host", V: "h"}, {K: "X-Verif-Case", V: id}, {K: "X-Forwarded-For", V: xff}}}
+	if kind == "dress" {
+		d := wireDresses[client%len(wireDresses)]
+		req.Method = d.Method
+		req.Target = "/dress-" + d.Name
+		for k, v := range d.Hdr {
+			req.Header = append(req.Header, lab.KV{K: k, V: v})
+		}
+		sort.Slice(req.Header[3:], func(i, j int) bool { return req.Header[3+i].K < req.Header[3+j].K })
+	}
 	mu.Lock()
 	t.sent++
 	mu.Unlock()
@@ -572,12 +596,16 @@ func evalBooks(l *lab.SocketLab, bc batchCfg, t tally, parkedPer map[int]int, de
 	var sumLive, sumAll uint64
 	for i, b := range l.Backends[:bc.Backends] {
 		name := lab.BackendName(i)
-		want := uint64(b.Received()) - uint64(parkedPer[i]) // parked requests are recorded per backend when they finish
+		received := b.Received()
+		if bc.Active.On {
+			received, _ = requestsAndProbes(b) // what the prober sent is not a request the balancer sent the backend
+		}
+		want := uint64(received) - uint64(parkedPer[i]) // parked requests are recorded per backend when they finish
 		got := s.perBackend[name]
 		// a request whose client aborted the upload may have been dispatched without the backend ever
 		// seeing a complete request head: those are the only permitted slack
 		if got < want || got > want+uint64(t.uploadAborts) {
-			return fmt.Sprintf("A3: backend_metrics[%s].total_requests=%d but the backend has finished %d requests (received %d, %d parked, %d client upload aborts) [%s]", name, got, want, b.Received(), parkedPer[i], t.uploadAborts, s)
+			return fmt.Sprintf("A3: backend_metrics[%s].total_requests=%d but the backend has finished %d requests (received %d, %d parked, %d client upload aborts)%s [%s]", name, got, want, received, parkedPer[i], t.uploadAborts, bc.Active.probeNote(l, bc.Backends), s)
 		}
 		sumLive += got
 	}
@@ -609,8 +637,11 @@ func TestC13Accounting(t *testing.T) {
 	sub := lab.Sub("accounting-batches", "rapid: lab (5 strategies x 1-3 raw TCP backends, optional unreachable backend, limiter/breaker/passive checks on or off) and a batch of 5-40 requests over kinds "+
 		"{2xx, 4xx, 5xx, backend reset mid-body, short body, client abort mid-upload, client abort mid-download, rate-limited client, WebSocket handshake answered 101 whose tunnel is used and then ended by the backend, request parked in flight in a drawn phase (backend silent before its response head / head sent and no body byte / head and parts 1..k of n sent and read by the client / head and 256 KiB-1 MiB sent to a client that stopped reading after the head; cl, chunked or close-delimited)}, issued sequentially or by 2-64 concurrent clients over real sockets; "+
 		"books checked at quiescence while requests are parked (gauges = in flight) and again after release (gauges = 0): A1 total, A2 exactly-one-of successful/failed/rate-limited, A3 per-backend totals = the backends' own tallies and their sum = dispatched, A4 gauges in /metrics and /v1/backends; "+
+		"in a third of the labs health_checks.active is on (interval 2-30 s, timeout 1-2 s, 4 health paths, unhealthy_timeout 0/1/3600 s when passive checks are off) and Helios's own prober probes the raw backends, whose health paths answer as drawn per backend {200, 204, 404, 500, 503, connection reset; the unreachable backend refuses}: probes are no requests - the books are read once on the idle balancer after the start-up probe round (all zero) and then as in every lab, against the backends' tallies of requests (probes told apart by the backends); "+
 		"non-trivial = batch contains a failing/rejected/aborted kind")
 	sub.NontrivialFloor(0.70)
+	sub.Floor("active-checks", 0.20)
+	sub.Floor("start-up-probe-failed", 0.12)
 	sub.Floor("has-abort", 0.10)
 	sub.Floor("upgraded-exchange", 0.30)
 	sub.Floor("parked-before-head", 0.25)
@@ -638,6 +669,7 @@ func accountingBatch(rt *rapid.T, sub *lab.SubCheck, handlerTimeout bool) {
 			Dead: rapid.IntRange(0, 3).Draw(rt, "dead") == 0, Limiter: rapid.Bool().Draw(rt, "limiter"), Breaker: rapid.IntRange(0, 2).Draw(rt, "breaker") == 0,
 			Passive: rapid.IntRange(0, 2).Draw(rt, "passive") == 0}
 		bc.Concurrent = rapid.SampledFrom([]int{1, 1, 2, 4, 8, 16, 64}).Draw(rt, "concurrent")
+		bc.Active = genProbes(rt, bc.Backends)
 		batchKinds := kinds
 		if handlerTimeout {
 			bc.HandlerTimeout = 1
@@ -666,9 +698,18 @@ func accountingBatch(rt *rapid.T, sub *lab.SubCheck, handlerTimeout bool) {
 			if bc.Passive {
 				cfg.HealthChecks.Passive = config.PassiveHealthCheckConfig{Enabled: true, UnhealthyThreshold: 3, UnhealthyTimeout: 3600}
 			}
+			bc.Active.apply(cfg, bc.Passive)
 			cfg.Server.Timeouts.BackendDial = 1
 			if bc.HandlerTimeout > 0 {
 				cfg.Server.Timeouts.Handler = bc.HandlerTimeout
+			}
+		}, BeforeStart: func(backends []*lab.RawBackend) {
+			if bc.Active.On {
+				// the start-up probe round already meets the scripted health paths and the unreachable backend
+				bc.Active.script(backends)
+				if bc.Dead {
+					backends[bc.Backends].Refuse(true)
+				}
 			}
 		}})
 		if err != nil {
@@ -682,6 +723,15 @@ func accountingBatch(rt *rapid.T, sub *lab.SubCheck, handlerTimeout bool) {
 		var tl tally
 		var mu sync.Mutex
 		var holds []heldReq
+		startupProbes := false
+		if bc.Active.On {
+			// An idle balancer whose prober has done its start-up round: not one request has reached it, none
+			// was sent to a backend - a quiescent moment like any other, with the books of zero requests.
+			startupProbes = bc.Active.awaitStartupProbes(l, bc.Backends, bc.Dead)
+			if v := checkBooks(l, bc, tally{}, map[int]int{}, bc.Dead); v != "" {
+				rt.Fatalf("lab %+v: before the first request (start-up probe round seen by every backend: %v): %s", bc, startupProbes, v)
+			}
+		}
 		if bc.Concurrent == 1 {
 			for i, k := range batch {
 				issue(l, k, i, &tl, &mu, &holds)
@@ -780,6 +830,15 @@ func accountingBatch(rt *rapid.T, sub *lab.SubCheck, handlerTimeout bool) {
 			}
 		}
 		labels := []string{bc.Strategy, fmt.Sprintf("concurrent-%d", bc.Concurrent)}
+		if bc.Active.On {
+			labels = append(labels, "active-checks")
+			if startupProbes {
+				labels = append(labels, "books-read-idle-after-start-up-probes")
+				if bc.Active.anyFailing(bc.Dead) {
+					labels = append(labels, "start-up-probe-failed")
+				}
+			}
+		}
 		if hasAbort {
 			labels = append(labels, "has-abort")
 		}
